@@ -330,7 +330,9 @@ class simplify_chained_calls(FuncADLNodeTransformer):
 
         # g is about to be placed under f's parameter: make sure that parameter's name
         # can't capture a variable g refers to.
-        func_f = make_args_unique(func_f)
+        # (a stage function is called by its operator, by position: no parameter of it has
+        # a name anyone relies on)
+        func_f = make_args_unique(func_f, rename_keyword_only=True)
         lambda_select = lambda_body_replace(
             func_f, make_Select(lambda_body(func_f), func_g)
         )  # type: ast.AST
@@ -413,7 +415,9 @@ class simplify_chained_calls(FuncADLNodeTransformer):
 
         # g is about to be placed under f's parameter: make sure that parameter's name
         # can't capture a variable g refers to.
-        func_f = make_args_unique(func_f)
+        # (a stage function is called by its operator, by position: no parameter of it has
+        # a name anyone relies on)
+        func_f = make_args_unique(func_f, rename_keyword_only=True)
         captured_body = func_f.body
         new_select = function_call("SelectMany", [captured_body, func_g])
         # Keep f's own parameter list (it may be positional-only, or carry defaults)
@@ -516,7 +520,9 @@ class simplify_chained_calls(FuncADLNodeTransformer):
 
         # g is about to be placed under f's parameter: make sure that parameter's name
         # can't capture a variable g refers to.
-        func_f = make_args_unique(func_f)
+        # (a stage function is called by its operator, by position: no parameter of it has
+        # a name anyone relies on)
+        func_f = make_args_unique(func_f, rename_keyword_only=True)
         lambda_where = lambda_body_replace(
             func_f, function_call("Where", [lambda_body(func_f), func_g])
         )
